@@ -84,6 +84,23 @@ pub fn vx_expect<T>(r: Result<T, StamError>, msg: &str) -> (v: T)
 { match r { Ok(v) => v, Err(_) => panic!() } }
 '''
 
+PARSE_STUBS = r'''
+#[verifier::external_type_specification]
+#[verifier::external_body]
+pub struct ExParseIntError(std::num::ParseIntError);
+
+pub assume_specification [isize::from_str_radix] (s: &str, radix: u32) -> (r: Result<isize, std::num::ParseIntError>);
+pub assume_specification [usize::from_str_radix] (s: &str, radix: u32) -> (r: Result<usize, std::num::ParseIntError>);
+
+#[verifier::external_body]
+pub fn vx_starts_with_char(s: &str, c: char) -> bool { s.starts_with(c) }
+#[verifier::external_body]
+pub fn vx_strip_prefix_char<'a>(s: &'a str, c: char) -> Option<&'a str> { s.strip_prefix(c) }
+/// R-closure-msg: stands for `|_e| StamError::InvalidCursor(cursor.to_owned(), "..")`
+#[verifier::external_body]
+pub fn vx_invalid_cursor(e: std::num::ParseIntError) -> StamError { unimplemented!() }
+'''
+
 VX_MSG = r'''
 /// R-err: stands for a `format!(..)` error-message argument; the text is never inspected by a contract
 #[verifier::external_body]
@@ -107,9 +124,19 @@ def build(name='u_off', selector_variants=('TextSelector', 'AnnotationSelector',
 
     # ------------------------------------------------------------------ Cursor / Offset
     u.impl('src/types.rs', 'impl TryFrom<isize> for Cursor', [
-        Fn('try_from', props=P, ret='r', sig_rewrites=[('R-inherent', r'Self::Error', 'StamError')],
+        Fn('try_from', emit_name='try_from_isize', props=P, ret='r', sig_rewrites=[('R-inherent', r'Self::Error', 'StamError')],
            ensures=[('ok_iff', 'r is Ok <==> cursor <= 0'), ('value', 'r is Ok ==> r->Ok_0 == Cursor::EndAligned(cursor)')]),
     ], verus_header='impl Cursor', )
+    u.trusted_text(PARSE_STUBS, 'external: isize/usize::from_str_radix (no panic, any Result), vx_starts_with_char / vx_strip_prefix_char (str::starts_with / strip_prefix with a char), vx_invalid_cursor (error closure)')
+    u.impl('src/types.rs', 'impl TryFrom<&str> for Cursor', [
+        Fn('try_from', emit_name='try_from_str', props=['C19'], ret='r', sig_rewrites=[('R-inherent', r'Self::Error', 'StamError')],
+           rewrites=[('R-outline', r'cursor\.starts_with\(\'-\'\)', "vx_starts_with_char(cursor, '-')", 'opt'),
+                     ('R-outline', r'cursor\.strip_prefix\(\'-\'\)', "vx_strip_prefix_char(cursor, '-')", 'opt'),
+                     ('R-closure-msg', r'\.map_err\(\|_e\| \{\s*StamError::InvalidCursor\([^;]*?\)\s*\}\)', '.map_err(vx_invalid_cursor)', 'opt'),
+                     ('R-inherent', r'Cursor::try_from\(', 'Cursor::try_from_isize(', 'opt'),
+                     ('R-inherent', r'Cursor::from\(cursor\)', 'Cursor::BeginAligned(cursor)', 'opt')],
+           ensures=[('wellformed', 'r is Ok ==> wf_cursor(r->Ok_0)')]),
+    ], verus_header='impl Cursor')
     u.impl('src/types.rs', 'impl Cursor', [
         Fn('shift', props=P4, ret='r',
            requires=[('no_overflow', '''match *self {
